@@ -118,7 +118,7 @@ def c08_b3(t: P2B3, p: int) -> bool:
 
 def c08_word(t: P2, p: int, w: Tuple[int, int, int], wlen: int) -> bool:
     """
-    pre: pinned(p=p, h0=t[0], l0=t[1], wlen=wlen)
+    pre: pinned(p=p, h0=t[0], l0=t[1], s0=t[2], wlen=wlen)
     pre: ((1 <= p) & (p <= 2)) & ((0 <= wlen) & (wlen <= 3))
     pre: cfg_canonical(t, p, 2, 2, 2)
     pre: enc.word_ranges(w, wlen, 3)
@@ -193,7 +193,9 @@ def _sh_b3(tier):
 
 
 def _sh_word(tier):
-    return product_pins(p=[2], h0=[0], l0=[1, 2], wlen=[2, 3])
+    if tier == "quick":
+        return product_pins(p=[2], h0=[0], l0=[1], s0=[0, 1, 2, 3], wlen=[2])
+    return product_pins(p=[2], h0=[0], l0=[1, 2], s0=[0, 1, 2, 3], wlen=[2, 3])
 
 
 FUNCS = ["CFG.contains", "CFG.__contains__", "CFG.generate_epsilon", "CFG.to_normal_form", "CYKTable.*",
@@ -225,8 +227,8 @@ CONDS = [
                    "constructor arguments, incl. declared terminals that no production uses", "thorough": "same"},
          FUNCS, RULE),
     Cond("C08", c08_word, _sh_word,
-         {"quick": "2 productions (first head S, body length 1-2) x one symbolic word of length 2-3 over {a,b,z} on a "
-                   "fresh grammar object (no cached normal form)",
-          "thorough": "same"},
+         {"quick": "2 productions (first: S -> one symbol) x one symbolic word of length 2 over {a,b,z} on a fresh "
+                   "grammar object (no cached normal form)",
+          "thorough": "first body of length 1-2, words of length 2-3"},
          FUNCS, RULE),
 ]
